@@ -14,6 +14,7 @@ assertion may be spurious; the driver therefore reports it as a violation only w
 Spec directives (contracts/*.skel):
   @source <file>                       translation unit
   @skeleton <fn> ...                   functions to lower (qualified-name suffix); entry points are called skel_<mangled>
+  @event in@<fn>@<callee> <C stmt>     the same, but only inside skeleton function <fn> (also for @pred)
   @event <callee> <C statement>        call to <callee> (qualified-name suffix, or member:<field> for a std::function member,
                                        or ctor:<type> for a construction) emits the statement; @0,@1.. = argument tags
   @pred <callee> <C expression>        bool-valued tracked call: its value in conditions is the C expression
@@ -210,6 +211,19 @@ class Skel:
     def match(self, table, key):
         if key is None:
             return None
+        for pat0 in table:
+            pat = pat0
+            if pat.startswith('in@'):
+                # scoped entry  in@<function suffix>@<callee>  -- applies only inside that skeleton function
+                _, fn, pat = pat.split('@', 2)
+                if not getattr(self, 'cur_name', '').endswith(mangle(fn)):
+                    continue
+            if key == pat or (not key.startswith(('member:', 'lambda:', 'ctor:', 'var:', 'index:')) and suffix_match(key, pat)) or \
+                    (pat.startswith('ctor:') and key.startswith('ctor:') and suffix_match(key[5:], pat[5:])):
+                return pat0
+        return None
+
+    def match_unscoped(self, table, key):
         for pat in table:
             if key == pat or (not key.startswith(('member:', 'lambda:', 'ctor:', 'var:', 'index:')) and suffix_match(key, pat)) or \
                     (pat.startswith('ctor:') and key.startswith('ctor:') and suffix_match(key[5:], pat[5:])):
